@@ -294,6 +294,17 @@ class CSSStyleSheet(cssutils.stylesheets.StyleSheet):
                 )
                 rule = cssutils.css.MarginRule(parentStyleSheet=self)
                 rule.cssText = self._tokensupto2(tokenizer, token)
+            elif self._normalize(token[1]) == '@charset':
+                # e.g. ``@CHARSET "x";`` or ``@charset"x";``: kept as unknown
+                # rule it would be serialised as a real @charset rule
+                self._log.error(
+                    'CSSStylesheet: @charset rule must be written exactly as '
+                    '\'@charset "encoding";\', ignored.',
+                    token,
+                    neverraise=True,
+                )
+                self._tokensupto2(tokenizer, token)
+                return max(1, expected or 0)
             else:
                 self._log.warn(
                     'CSSStylesheet: Unknown @rule found.', token, neverraise=True
